@@ -20,12 +20,40 @@ def _nz(nelz):
     return V.ite(V.cmp('>=', nelz, 1), nelz, 1) if V.is_sym(nelz) else max(nelz, 1)
 
 
+def layout_hints(c, t, nx_, ny_, nzz):
+    """lemma instances for the constructor's enumeration  t = (ix*ny + iy)*nzz + iz  (repeat/tile layout) and the element number it produces"""
+    m = V.mul(ny_, nzz)
+    ix, r = V.floordiv(t, m), V.mod(t, m)
+    iy, iz = V.floordiv(r, nzz), V.mod(r, nzz)
+    c.prove('lemma.divmod_def', z3.And(V.zint(t) == V.zint(ix) * V.zint(m) + V.zint(r), V.zint(r) == V.zint(iy) * V.zint(nzz) + V.zint(iz),
+                                       V.zint(r) >= 0, V.zint(r) < V.zint(m), V.zint(iz) >= 0, V.zint(iz) < V.zint(nzz)), kind='lemma-premise')
+    c.assume(V.zint(t) == V.zint(ix) * V.zint(m) + V.zint(r))
+    c.assume(V.zint(r) == V.zint(iy) * V.zint(nzz) + V.zint(iz))
+    c.assume(z3.And(V.zint(r) >= 0, V.zint(r) < V.zint(m), V.zint(iz) >= 0, V.zint(iz) < V.zint(nzz)))
+    c.prove('lemma.quotients_in_range', z3.And(V.zint(ix) >= 0, V.zint(ix) < V.zint(nx_), V.zint(iy) >= 0, V.zint(iy) < V.zint(ny_)), kind='lemma-premise')
+    c.assume(z3.And(V.zint(ix) >= 0, V.zint(ix) < V.zint(nx_), V.zint(iy) >= 0, V.zint(iy) < V.zint(ny_)))
+    mul_mono(c, iy, ny_, nzz, 'h_iy')
+    mul_mono(c, ix, nx_, m, 'h_ix')
+    e = V.add(V.mul(V.add(V.mul(iz, ny_), iy), nx_), ix)
+    euclid(c, V.add(V.mul(iz, ny_), iy), nx_, ix, 'h1')
+    euclid(c, iz, ny_, iy, 'h2')
+    c.prove('lemma.ring_identity', V.zint(e) == V.zint(iz) * (V.zint(nx_) * V.zint(ny_)) + (V.zint(iy) * V.zint(nx_) + V.zint(ix)), kind='lemma-premise')
+    c.assume(V.zint(e) == V.zint(iz) * (V.zint(nx_) * V.zint(ny_)) + (V.zint(iy) * V.zint(nx_) + V.zint(ix)))
+    mul_mono(c, iy, ny_, nx_, 'h_iy2')
+    mul_mono(c, iz, nzz, V.mul(nx_, ny_), 'h_iz')
+    mul_mono(c, V.add(V.mul(iz, ny_), iy), V.mul(nzz, ny_), nx_, 'h_q')
+    mul_mono(c, iz, nzz, ny_, 'h_iz2')
+    euclid(c, iz, V.mul(nx_, ny_), V.add(V.mul(iy, nx_), ix), 'h3')
+
+
 # ------------------------------------------------------------------------------------------------ counts
 for _dim in (2, 3):
     @harness(P, f'__init__.counts[dim={_dim}]', targets=[T('__init__')])
     def h_counts(ctx, it, dim=_dim):
         """nel, nnodes, dim, elemnodes as documented"""
-        dom, (nx, ny, nz), _ = sym_domain(ctx, it, dim)
+        nx_, ny_, nz_ = ctx.sym('nelx'), ctx.sym('nely'), ctx.sym('nelz')
+        ctx.gather_hints = lambda c, arr, pos: layout_hints(c, pos[0], nx_, ny_, _nz(nz_)) if len(pos) == 1 else None
+        dom, (nx, ny, nz), _ = sym_domain(ctx, it, dim, check_init=True)
         g = it.getattr
         ctx.prove('dim', V.cmp('==', g(dom, 'dim'), dim))
         ctx.prove('elemnodes', V.cmp('==', g(dom, 'elemnodes'), 2 ** dim))
@@ -168,7 +196,7 @@ for _dim in (2, 3):
             ctx.prove(f'corner[{cc}]', V.cmp('==', c.data[cc], want))
         ctx.prove('distinct', z3.Distinct(*[V.zint(x) for x in c.data]))
 
-    @harness(P, f'__init__.conn[dim={_dim}]', targets=[T('__init__'), T('get_elemconnectivity'), T('get_elemnumber')], tier=('quick' if _dim == 2 else 'thorough'))
+    @harness(P, f'__init__.conn[dim={_dim}]', targets=[T('__init__'), T('get_elemconnectivity'), T('get_elemnumber')], tier=('quick' if _dim == 2 else 'experimental'))
     def h_conn(ctx, it, dim=_dim):
         """conn[e, c] is corner c of the element whose number is e (every row is defined exactly once); elements/nodes tables"""
         nx_, ny_, nz_ = ctx.sym('nelx'), ctx.sym('nely'), ctx.sym('nelz')
@@ -179,23 +207,8 @@ for _dim in (2, 3):
             return lambda e: V.add(V.mul(V.add(V.mul(V.mod(e, nx_), ny_), V.mod(V.floordiv(e, nx_), ny_)), nzz), V.floordiv(e, V.mul(nx_, ny_)))
 
         def hints(c, arr, t):
-            # t = (ix*ny + iy)*nzz + iz  with the layout of repeat/tile
-            m = V.mul(ny_, nzz)
-            ix, r = V.floordiv(t, m), V.mod(t, m)
-            iy, iz = V.floordiv(r, nzz), V.mod(r, nzz)
-            c.assume(V.zint(t) == V.zint(ix) * V.zint(m) + V.zint(r))
-            c.assume(V.zint(r) == V.zint(iy) * V.zint(nzz) + V.zint(iz))
-            c.assume(z3.And(V.zint(r) >= 0, V.zint(r) < V.zint(m), V.zint(iz) >= 0, V.zint(iz) < V.zint(nzz), V.zint(ix) >= 0))
-            mul_mono(c, iy, ny_, nzz, 'h_iy')
-            c.assume(z3.And(V.zint(iy) >= 0, V.zint(iy) < V.zint(ny_)))
-            mul_mono(c, ix, nx_, m, 'h_ix')
-            c.assume(V.zint(ix) < V.zint(nx_))
-            e = V.add(V.mul(V.add(V.mul(iz, ny_), iy), nx_), ix)
-            euclid(c, V.add(V.mul(iz, ny_), iy), nx_, ix, 'h1')
-            euclid(c, iz, ny_, iy, 'h2')
-            c.assume(V.zint(e) == V.zint(iz) * (V.zint(nx_) * V.zint(ny_)) + (V.zint(iy) * V.zint(nx_) + V.zint(ix)))
-            mul_mono(c, iy, ny_, nx_, 'h_iy2')
-            euclid(c, iz, V.mul(nx_, ny_), V.add(V.mul(iy, nx_), ix), 'h3')
+            layout_hints(c, t, nx_, ny_, nzz)
+
         ctx.inverse_provider = provider
         ctx.inverse_hints = hints
         dom, (nx, ny, nz), _ = sym_domain(ctx, it, dim)
